@@ -8,14 +8,11 @@ open Coba.C11
 /-- concrete stand-in for `statistics.stdev` (the model and the theorems are generic in `sd`):
 sample standard deviation, square root taken to 20 decimal places -/
 def sdApprox (xs : List Rat) : Rat :=
-  match mean xs with
-  | none => 0
-  | some m =>
-    let v : Rat := sumL (xs.map (fun x => (x - m) * (x - m))) / ((xs.length : Rat) - 1)
-    if v ≤ 0 then 0
-    else
-      let scaled : Nat := (v.num.toNat * 10 ^ 40) / v.den
-      ((Nat.sqrt scaled : Nat) : Rat) / ((10 ^ 20 : Nat) : Rat)
+  let v : Rat := variance xs
+  if xs.length < 2 ∨ v ≤ 0 then 0
+  else
+    let scaled : Nat := (v.num.toNat * 10 ^ 40) / v.den
+    ((Nat.sqrt scaled : Nat) : Rat) / ((10 ^ 20 : Nat) : Rat)
 
 def valOfJson (j : Json) : Except String Val := do
   if j.isNull then pure .nil
@@ -90,12 +87,59 @@ def fitsOf (cfg : Cfg) : Ctxs → Json
     | first :: _ =>
       let fitting := window cfg.usingN rows
       ofList (fun k => Json.arr #[Json.str k,
-        fitToJson (if potSparse first fitting k then fit sdApprox cfg (fitting.map (getD0 k)) else none)])
+        fitToJson (if potSparse first k then fit sdApprox cfg (fitting.map (getD0 k)) else none)])
         (seenKeys rows [])
   | .scalar rows => Json.arr #[fitToJson (fit sdApprox cfg (window cfg.usingN rows))]
 
+def resToJson : Except Err Ctxs → Json
+  | .ok out => ctxsToJson out
+  | .error _ => obj [("err", Json.str "CobaException")]
+
+def tableOfJson (j : Json) : Except String Ctxs := do
+  ctxsOfJson (← str (← field j "kind")) (← field j "rows")
+
+/-- a sequence request: the stateful object / collection model run over the reads.
+`dt` of read number `n` is `[n, n+1, n+2, n+3]` (arbitrary: results do not depend on it) -/
+def handleSeq (req : Json) : Except String Json := do
+  let op ← str (← field req "seqop")
+  let mode ← str (← field req "mode")
+  let u ← opt nat (fieldD req "using" Json.null)
+  let tables ← (← arr (← field req "seq")).mapM tableOfJson
+  let order ← natList (← field req "read_order")
+  let dts : List (List Nat × Nat) := order.mapIdx (fun n i => ([n, n + 1, n + 2, n + 3], i))
+  let t0 : List Nat := [0, 0, 0, 0]
+  let fitsFor (cfg : Cfg) : Json := ofList (fun i => match tables[i]? with | some t => fitsOf cfg t | none => Json.null) order
+  match op with
+  | "scale" =>
+    let cfg : Cfg := { shift := (← shiftOfJson (← field req "shift")), scale := (← sclOfJson (← field req "scale")), usingN := u }
+    if mode == "envs" then
+      let coll : Coll Cfg := { srcs := tables, objs := [⟨cfg, t0⟩] }
+      let outs := (Coll.reads (scaleCtxs sdApprox) coll dts).2
+      pure (obj [("reads", ofList (ofOpt resToJson) outs), ("fits", fitsFor cfg)])
+    else
+      let calls := dts.filterMap (fun di => (tables[di.2]?).map (fun t => (di.1, t)))
+      let outs := (Obj.run (scaleCtxs sdApprox) ⟨cfg, t0⟩ calls).2
+      pure (obj [("reads", ofList resToJson outs), ("fits", fitsFor cfg)])
+  | "impute" =>
+    let stats ← (← arr (← field req "stats")).mapM statOfJson
+    let ind ← bool (← field req "ind")
+    if mode == "envs" then
+      let coll : Coll ImpCfg := { srcs := tables, objs := stats.map (fun st => ⟨(st, ind, u), t0⟩) }
+      let outs := (Coll.reads imputeF coll dts).2
+      pure (obj [("reads", ofList (ofOpt resToJson) outs)])
+    else
+      let calls := dts.filterMap (fun di => (tables[di.2]?).map (fun t => (di.1, t)))
+      let st := stats.headD .mean
+      let outs := (Obj.run imputeF ⟨(st, ind, u), t0⟩ calls).2
+      pure (obj [("reads", ofList resToJson outs)])
+  | _ => throw s!"unknown seqop {op}"
+
 def handle (req : Json) : Except String Json := do
   let op ← str (← field req "op")
+  if op == "seq" then return (← handleSeq req)
+  if op == "variance" then
+    let xs ← ratList (← field req "xs")
+    return obj [("variance", ratToJson (variance xs)), ("sd", ratToJson (sdApprox xs))]
   let kind ← str (← field req "kind")
   let u ← opt nat (fieldD req "using" Json.null)
   let c ← ctxsOfJson kind (← field req "rows")
